@@ -54,7 +54,7 @@ TRUSTED_BASE = [
     "Lean 4.33 kernel",
     "hand-written model GraphiqModel/Model/Wire.lean (copy, unwrap_nodes, remove_identity, group_one_qubit_gates, assign_noise, flat) tied to circuit_dag.py / circuit_base.py by this correspondence run",
     "networkx topological_sort returns a linear extension (checked on every observed call by the model: assign_noise rejects a sequence that is not one)",
-    "stabilizer semantics of the compile sequence: the commutation of operations on disjoint quantum registers is PROVED (Properties/C13 §2b, Proofs/Commute*.lean) on C07's group transformers and tied to the compile loop stabRun by refinement and completeness theorems (§2c); trusted there: that stabRun models StabilizerCompiler.compile_one_gate (C01 correspondence) and that (c.sops seq).map toCOp is the sequence the real compiler executes (part A'': the Lean definitions are evaluated on the snapshot of every sampled real circuit/order and compared token for token with the real sequence(unwrapped=True); the model run on that list is compared with the real compile), the density-matrix backend (compared per circuit and branch)",
+    "stabilizer semantics of the compile sequence: the commutation of operations on disjoint quantum registers is PROVED (Properties/C13 §2b, Proofs/Commute*.lean) on C07's group transformers and tied to the compile loop stabRun by refinement and completeness theorems (§2c); trusted there: that stabRun models StabilizerCompiler.compile_one_gate (C01 correspondence) and that (c.sops seq).map toCOp is the sequence the real compiler executes (part A'': the Lean definitions are evaluated on the snapshot of every sampled real circuit/order and compared token for token with the real sequence(unwrapped=True); the model run on that list is compared with the real compile), that the floating-point density-matrix backend computes the density-matrix semantics (compared per circuit and branch; commutation of that semantics on disjoint registers is proved too, Properties/C13 §2g)",
     "part A'': `lake env lean` evaluates a generated script that imports Driver.CmdWire (snapshot parser) and Proofs/CommuteRefine (toCOp, decode)",
     "aliasing half: differential testing only — Python object aliasing is outside a functional model (DESIGN §4 C13, §7.6)",
     "harness: wire snapshot, scripted-outcome compilers (subclasses of the public compilers), stab_canon",
